@@ -109,7 +109,8 @@ def feed(report, reps, props=None, kinds=None, funcs=None):
                       detail='%d path instances over scenarios %s' % (
                           s['inst'], sorted(set(s['scen']))),
                       meta={'line': o['line'], 'scenarios': s['scen'],
-                            'bounded': ':op.__init__:' in oid}))
+                            'bounded': ':op.__init__:' in oid and
+                            'listN' not in s['scen']}))
 
 
 
